@@ -86,7 +86,10 @@ where
             res?;
             unreachable!();
         }
-        Ok(())
+        match res.unwrap() {
+            Results::MergeResult(r) => r,
+            _ => unreachable!(),
+        }
     }
 
     pub fn is_ready(&self) -> bool {
